@@ -121,7 +121,7 @@ def mutants_of(rel: str, src: str) -> Iterator[Dict]:
                 except SyntaxError:
                     continue
                 old_txt = b[s0:s1].decode("utf-8")
-                yield {"file": rel, "func": qn, "line": target.lineno, "desc": desc, "old": old_txt[:80], "new": new[:80], "span": [s0, s1], "newfull": new}
+                yield {"file": rel, "func": qn, "line": target.lineno, "desc": desc, "old": old_txt[:80], "new": new[:80], "span": [s0, s1], "newfull": new, "oldfull": old_txt}
 
 
 def analyse(m: Dict, repo: str) -> Dict:
@@ -131,6 +131,8 @@ def analyse(m: Dict, repo: str) -> Dict:
     from .model import AnalysisError
     from . import cfg as _cfg, model as _model
     src = open(os.path.join(repo, m["file"]), encoding="utf-8").read().encode("utf-8")
+    if "oldfull" in m and src[m["span"][0]:m["span"][1]].decode("utf-8", "replace") != m["oldfull"]:
+        return {**{k: m[k] for k in ("file", "func", "line", "desc", "old", "new")}, "fired": {}, "errors": {"*": "stale: the source changed since the mutant was generated"}}
     mutated = (src[:m["span"][0]] + m["newfull"].encode("utf-8") + src[m["span"][1]:]).decode("utf-8")
     overrides = {m["file"]: mutated}
     known = {(k["property"], k["key"]) for k in load_known().get("known", [])}
@@ -157,7 +159,7 @@ def analyse(m: Dict, repo: str) -> Dict:
             errors[prop] = f"INTERNAL {type(e).__name__}: {e}"[:160]
     _cfg._cache.clear()
     _model._walk_cache.clear()
-    return {**{k: m[k] for k in ("file", "func", "line", "desc", "old", "new", "span", "newfull")}, "fired": fired, "errors": errors}
+    return {**{k: m[k] for k in ("file", "func", "line", "desc", "old", "new", "span", "newfull", "oldfull")}, "fired": fired, "errors": errors}
 
 
 def _job(args):
@@ -176,6 +178,8 @@ def run_tests(m: Dict, repo: str, timeout: int = 900) -> str:
         wt = os.path.join(tmp, "wt")
         p = os.path.join(wt, m["file"])
         src = open(p, encoding="utf-8").read().encode("utf-8")
+        if "oldfull" in m and src[m["span"][0]:m["span"][1]].decode("utf-8", "replace") != m["oldfull"]:
+            return "stale: the source changed since the sweep"
         open(p, "w", encoding="utf-8").write((src[:m["span"][0]] + m["newfull"].encode("utf-8") + src[m["span"][1]:]).decode("utf-8"))
         r = subprocess.run(["/venv/bin/python", "-m", "pytest", "-q", "-x", "-p", "no:cacheprovider", "--timeout=300", "-n", "2"], cwd=wt, capture_output=True, text=True, timeout=timeout)
         tail = [l for l in r.stdout.splitlines() if "passed" in l or "failed" in l or "error" in l]
